@@ -1,12 +1,12 @@
 SPECIFICATION MCSpec
 CONSTANTS
-  U = 5
-  MaxOps = 6
+  U = 7
+  MaxOps = 24
   FailCs = {}
-  FailNs = {1}
-  PruneTs = {0, 150, 350}
-  RgsSnaps = {}
-  WithReload = TRUE
+  FailNs = {}
+  PruneTs = {250}
+  RgsSnaps = {1, 2}
+  WithReload = FALSE
 CONSTRAINT Bound
 VIEW View
 INVARIANT OnlyAuthentic
